@@ -44,6 +44,8 @@ type FuncContract struct {
 	NoPanic  bool     // no panic may leave this function
 	MayPanic bool     // callers must expect a panic
 	Preserves []string // heap key patterns the function leaves untouched (except on fresh objects)
+	Pure bool // deterministic and side-effect free: a call is an uninterpreted function of the arguments
+	Uses []string // names of axioms assumed at entry
 	Receiver string // parameter that plays the receiver for ghost updates / disjoint-operands of a plain function
 	DisjointOperands bool // assumed: other query values in the caller's scope are not sub-queries of the receiver
 	TreeFrame bool    // assumed: the call does not write the caller's own receiver object (query trees are trees)
@@ -63,6 +65,7 @@ type Contracts struct {
 	Defines map[string]*Define
 	Lemmas  []*Clause
 	FieldClass map[string]map[string]string // type -> field -> class
+	Axioms map[string]*Clause // named spec-level axioms (definitions of spec predicates over the heap)
 	File    string
 }
 
@@ -175,6 +178,16 @@ func parseContracts(path string) (*Contracts, error) {
 			c.Defines[name] = d
 			lastDef = d
 			cur = nil
+		case "axiom":
+			cl := &Clause{Kind: "axiom", Line: ln}
+			cl.Label, cl.Props, rest = parseLabel(rest)
+			cl.Expr = rest
+			if c.Axioms == nil {
+				c.Axioms = map[string]*Clause{}
+			}
+			c.Axioms[cl.Label] = cl
+			last = cl
+			cur = nil
 		case "lemma":
 			cl := &Clause{Kind: "lemma", Line: ln}
 			cl.Label, cl.Props, rest = parseLabel(rest)
@@ -234,6 +247,10 @@ func parseContracts(path string) (*Contracts, error) {
 				cur.DisjointOperands = true
 			case "receiver":
 				cur.Receiver = rest
+			case "pure":
+				cur.Pure = true
+			case "uses":
+				cur.Uses = append(cur.Uses, strings.Fields(rest)...)
 			case "preserves":
 				for _, m := range strings.Split(rest, ",") {
 					if m = strings.TrimSpace(m); m != "" {
@@ -261,6 +278,11 @@ func parseContracts(path string) (*Contracts, error) {
 				// ghost k(self) = expr : history-variable update performed at every call
 				i := strings.Index(rest, "=")
 				cl := &Clause{Kind: "ghost", Name: strings.TrimSpace(rest[:i]), Expr: strings.TrimSpace(rest[i+1:]), Line: ln}
+				cur.Clauses = append(cur.Clauses, cl)
+				last = cl
+			case "decreases":
+				// recursion measure (lexicographic tuple): decreases 200 - p.d, 3
+				cl := &Clause{Kind: "rdecreases", Expr: rest, Line: ln}
 				cur.Clauses = append(cur.Clauses, cl)
 				last = cl
 			case "let":
